@@ -18,16 +18,30 @@ impl WindowAccumulator for Collect {
 }
 
 fn gen(rng: &mut Rng, i: usize) -> Case {
-    // boundary-seeking (N, S): S | N, S ∤ N, S = N, S = 1
-    let n = rng.range(1, 9) as usize;
-    let s = match rng.below(5) {
-        0 => 1,
-        1 => n,
-        2 => {
-            let d: Vec<usize> = (1..=n).filter(|d| n % d == 0).collect();
-            *rng.pick(&d)
+    // boundary-seeking (N, S): S | N, S ∤ N, S = N, S = 1; one case in four with a large window
+    // (N up to 40: many open slots for small S) and a slide that is not a small divisor of N
+    let large = rng.chance(1, 4);
+    let n = if large { rng.range(8, 40) as usize } else { rng.range(1, 9) as usize };
+    let s = if large {
+        match rng.below(4) {
+            0 => rng.range(1, 3) as usize,
+            1 => rng.range((n as i64) / 2, n as i64) as usize,
+            2 => {
+                let nd: Vec<usize> = (2..n).filter(|d| n % d != 0).collect();
+                if nd.is_empty() { n } else { *rng.pick(&nd) }
+            }
+            _ => rng.range(1, n as i64) as usize,
         }
-        _ => rng.range(1, n as i64) as usize,
+    } else {
+        match rng.below(5) {
+            0 => 1,
+            1 => n,
+            2 => {
+                let d: Vec<usize> = (1..=n).filter(|d| n % d == 0).collect();
+                *rng.pick(&d)
+            }
+            _ => rng.range(1, n as i64) as usize,
+        }
     };
     let exact = rng.chance(1, 2);
     let mut c = Case::new(&["cwin", &n.to_string(), &s.to_string(), if exact { "1" } else { "0" }]);
@@ -38,8 +52,9 @@ fn gen(rng: &mut Rng, i: usize) -> Case {
             0 => 0,
             1 => rng.range(0, n as i64 - 1),
             2 => (n as i64) + (s as i64) * rng.range(0, 4),
-            _ => rng.range(0, 40),
-        };
+            _ => rng.range(0, if large { 100 } else { 40 }),
+        }
+        .min(120);
         let timestamped = rng.chance(1, 3);
         let mut t = 0i64;
         for _ in 0..len {
